@@ -306,8 +306,12 @@ def run(rep, tier):
     prevalid = False
     if cbw:
         for n in prog.reach_set([cbw[0].id]):
-            if re.search(r"^ext:anda_db_schema::(schema::Schema::validate|field::FieldValue::validate_complexity(_with)?|document::Document::(try_from|validate)[^:]*)$",
+            # (Document::try_from alone is not enough: the typed conversion applies no complexity budget - that is how the defect got through)
+            if re.search(r"^ext:anda_db_schema::(schema::Schema::validate|field::FieldValue::validate_complexity(_with)?)$",
                          prog.node_name(n) or ""):
+                prevalid = True
+            # the row store's own dry run of the write (same field validation, complexity budget and size limit, nothing written)
+            if re.search(r"^ext:anda_db::collection::Collection::check_(update|add_from)$", prog.node_name(n) or ""):
                 prevalid = True
     compensated = True
     for e in wr:
